@@ -572,9 +572,11 @@ def run_opseq(rep, tier):
     trio = lambda c: f3(c) and (c[0], c[3]) in (('mesh', 'b_view_a'), ('imex_mesh', 'b_comp_a'), ('particles', 'b_is_a'))
     if tier == 'quick':
         cpu_cap = 45.0  # CPU seconds per worker and plan (load independent); a plan that hits it reports capped
-        plans.append(('depth<=2, full alphabet, shape (3,) float64', [c for c in cfgs if f3(c)], 2, 'full'))
-        plans.append(('depth<=1, full alphabet, all other configurations', [c for c in cfgs if not f3(c)], 1, 'full'))
-        plans.append(('depth<=2, core alphabet, all other configurations', [c for c in cfgs if not f3(c)], 2, 'core'))
+        # the classes that carry code of their own; acceleration / comp2_mesh / MeshDAE only rename components (thorough: all)
+        own = lambda c: f3(c) and c[0] in ('mesh', 'imex_mesh', 'particles', 'fields')
+        plans.append(('depth<=2, full alphabet, mesh / imex_mesh / particles / fields, shape (3,) float64', [c for c in cfgs if own(c)], 2, 'full'))
+        plans.append(('depth<=1, full alphabet, all other configurations', [c for c in cfgs if not own(c)], 1, 'full'))
+        plans.append(('depth<=2, core alphabet, all other configurations', [c for c in cfgs if not own(c)], 2, 'core'))
         plans.append(('depth<=3, core alphabet, mesh b=a[:] / imex_mesh b=a.impl / particles b is a, (3,) float64', [c for c in cfgs if trio(c)], 3, 'core'))
     else:
         cpu_cap = 420.0
